@@ -166,6 +166,22 @@ def run(chk):
     srcs = ["(do 1 2 3)", "(do (setv q 4) (+ q 1))", "(raise (ValueError \"x\"))", "(do (setv q 1) (raise (KeyError 1)))",
             "(undefined-macro-or-fn 1)", "(setv", "(do (import os) (del hy) 5)", "(do (setv hy 9) hy)",
             "(do (import math :as hy) 1)", "(do (setv hy None) 1)", "(do (setv hy \"mine\") (raise (ValueError hy)))", "(defn hy [] 1)"]
+    # the value of the last form, also when that form compiles to nothing (its value is None, not the value of the form before it)
+    last_none = ["5 (do)", "(do 5 (do))", "(setv x 6) x (eval-and-compile)", "((fn [] 9 (do)))", "7 (eval-when-compile 1)", "8 (do (do))",
+                 "1 2 (pragma :warn-on-core-shadow True)", "(when True 3 (do))", "4 (do) (do)"]
+    badl = []
+    for src in last_none:
+        for lname, lmk in shapes.items():
+            try:
+                got = hy.eval(hy.read_many(src), locals=lmk(), module=types.ModuleType("hv_c39e"))
+            except Exception as e:  # noqa: BLE001
+                got = f"{type(e).__name__}: {e}"
+            chk.case(("last-none", src, lname))
+            if got is not None:
+                badl.append((src, lname, got))
+    chk.ob("e2e/a last form that compiles to nothing makes the result None, whatever the forms before it evaluate to", not badl, "cpython-oracle",
+           "bounded", detail=str(badl[:3]),
+           replay={"confirmed": True, "input": f"hy.eval of {badl[0][0]}", "observed": repr(badl[0][2]), "expected": "None"} if badl else None)
     srcs += ["(hy.repr [1 2])", ":kw", "'(a b)", "(hy.I.math.floor 2.5)", "(do 1 2 (+ 1 1))", "(hy.mangle \"a-b\")", "`(a ~(+ 1 1))",
              "(do (setv q 2) (hy.repr q))", "(hy.models.Symbol \"s\")"]
     bad = []
